@@ -63,11 +63,14 @@ Definition q_ok (q : queue) : Prop :=
 
 Definition fifo_inv (s : state) : Prop := Forall q_ok (queues s).
 
-Lemma init_fifo nq ps : fifo_inv (init nq ps).
+Lemma init_ctx_fifo cs ps : fifo_inv (init_ctx cs ps).
 Proof.
-  unfold fifo_inv, init; simpl. induction nq; simpl; constructor; auto.
+  unfold fifo_inv, init_ctx; simpl. induction cs; simpl; constructor; auto.
   repeat split; simpl; auto. discriminate.
 Qed.
+
+Lemma init_fifo nq ps : fifo_inv (init nq ps).
+Proof. apply init_ctx_fifo. Qed.
 
 Lemma step_fifo c s l s' : fifo_inv s -> step c s l = Some s' -> fifo_inv s'.
 Proof.
@@ -114,7 +117,7 @@ Definition touched (s : state) (l : tstep) : option nat :=
     end
   | TEng =>
     match eng s with
-    | Some (ERet _) => hd_error (resp s)
+    | Some (ERet _) => match resp s with q0 :: _ => match_response s q0 | [] => None end
     | Some (EQ i _) => Some i
     | _ => None
     end
@@ -137,10 +140,14 @@ Definition log_for (q : nat) (lg : list (nat * nat * N)) : list N :=
 Definition log_inv (s : state) : Prop :=
   forall q qq, nth_error (queues s) q = Some qq -> q_enq qq = log_for q (g_log s).
 
-Lemma init_log nq ps : log_inv (init nq ps).
+Lemma init_ctx_log cs ps : log_inv (init_ctx cs ps).
 Proof.
-  intros q qq H. unfold init in H; simpl in H. apply nth_error_In, repeat_spec in H. subst. reflexivity.
+  intros q qq H. unfold init_ctx in H; simpl in H. apply nth_error_In, in_map_iff in H.
+  destruct H as (c & <- & _). reflexivity.
 Qed.
+
+Lemma init_log nq ps : log_inv (init nq ps).
+Proof. apply init_ctx_log. Qed.
 
 Lemma log_for_app q lg e : log_for q (lg ++ [e]) = log_for q lg ++ (if Nat.eqb (snd (fst e)) q then [snd e] else []).
 Proof.
@@ -181,6 +188,12 @@ Definition prog_inv (ps : list (list op)) (s : state) : Prop :=
   length (apps s) = length ps /\
   forall t a p, nth_error (apps s) t = Some a -> nth_error ps t = Some p ->
                 enqs_of t p = thread_log t (g_log s) ++ enqs_of t (a_prog a).
+
+Lemma init_ctx_prog cs ps : prog_inv ps (init_ctx cs ps).
+Proof.
+  split; [simpl; apply map_length|]. intros t a p Ha Hp. simpl in *.
+  rewrite nth_error_map, Hp in Ha. injection Ha as <-. reflexivity.
+Qed.
 
 Lemma init_prog nq ps : prog_inv ps (init nq ps).
 Proof.
@@ -267,4 +280,25 @@ Proof.
   induction l; simpl; intros s s' I H.
   - injection H as <-. exact I.
   - destruct (step c s a) eqn:E; [|discriminate]. eapply IHl; [|exact H]. eapply step_prog; eauto.
+Qed.
+
+(* ---------------------------------------------------------------- contexts *)
+
+Lemma map_upd_same {A B} (g : A -> B) i (f : A -> A) l :
+  (forall x, g (f x) = g x) -> map g (upd i f l) = map g l.
+Proof.
+  intros Hf. revert i; induction l as [|x l IH]; intros [|i]; simpl; auto; rewrite ?Hf, ?IH; reflexivity.
+Qed.
+
+(** no transition moves a queue to another context *)
+Lemma step_ctx c s l s' : step c s l = Some s' -> map q_ctx (queues s') = map q_ctx (queues s).
+Proof.
+  intros H. step_inv H; simpl; auto; apply map_upd_same; intros x; reflexivity.
+Qed.
+
+Lemma run_ctx c l : forall s s', run c s l = Some s' -> map q_ctx (queues s') = map q_ctx (queues s).
+Proof.
+  induction l; simpl; intros s s' H.
+  - injection H as <-. reflexivity.
+  - destruct (step c s a) eqn:E; [|discriminate]. rewrite (IHl _ _ H). eapply step_ctx; eauto.
 Qed.
